@@ -13,7 +13,7 @@ from typing import Any, Callable, Dict, List, Optional, Tuple
 
 from . import terms as T
 from .progdb import AnalysisError, Module, ProgramDB, walk_no_nested
-from .values import (Columns, ClassRef, Each, EnumRef, ExtMod, Frame, FuncRef, GenCall, GroupBy, GuardedSeq, Obj, PyTuple, Ser, to_term)
+from .values import (Columns, ClassRef, Each, EnumRef, ExtMod, Frame, FuncRef, GenCall, GroupBy, GuardedSeq, Obj, PyTuple, ReMatch, Ser, to_term)
 
 EXT_MODULES = {"pd": "pd", "pandas": "pd", "np": "np", "numpy": "np", "math": "math", "nx": "nx", "networkx": "nx",
                "re": "re", "os": "os", "json": "json", "gzip": "gzip", "time": "time", "sys": "sys", "logging": "logging",
@@ -180,6 +180,8 @@ class Interp:
             return T.C(bool(v.items))
         if isinstance(v, (bool, int, float)) or v is None:
             return T.C(bool(v))
+        if isinstance(v, ReMatch):
+            return T.TRUE
         if isinstance(v, (Frame, Obj, FuncRef, ClassRef)):
             return T.TRUE if not isinstance(v, Frame) else ("truthy", to_term(v))
         t = to_term(v)
@@ -479,6 +481,26 @@ class Interp:
         self.exec_block(st.finalbody)
 
     def st_While(self, st):
+        # a loop whose condition is a CONSTANT every time it is tested (plain Python bookkeeping over concrete values, e.g. popping a stack of characters) is run as written,
+        # outside symbolic loops only; anything else is executed once with unknown state, as before
+        if self.run.loop_depth == 0 and not any(isinstance(n, ast.Try) for n in ast.walk(st)) and not st.orelse:
+            first = self.truth(self.eval(st.test))
+            if T.is_const(first):
+                n_it, c = 0, first
+                while T.is_const(c) and c[1]:
+                    n_it += 1
+                    if n_it > 2000:
+                        raise AnalysisError(f"while loop at line {st.lineno}: more than 2000 concrete iterations")
+                    try:
+                        self.exec_block(st.body)
+                    except _Continue:
+                        pass
+                    except _Break:
+                        return
+                    c = self.truth(self.eval(st.test))
+                if not T.is_const(c):
+                    raise AnalysisError(f"while loop at line {st.lineno}: the condition became symbolic after {n_it} concrete iteration(s)")
+                return
         self.log("while-once", st)
         self._loop_once(st.body, None, None, st)
 
@@ -567,7 +589,7 @@ class Interp:
             self.exec_block(st.orelse)
             return
         seq = self._concrete_seq(it)
-        if seq is not None and len(seq) <= 16:
+        if seq is not None and (len(seq) <= 16 or (isinstance(it, str) and self.run.loop_depth == 0)):
             try:
                 for v in seq:
                     self.assign(st.target, v, st)
@@ -602,6 +624,8 @@ class Interp:
     def _concrete_seq(self, it: Any) -> Optional[list]:
         if isinstance(it, list) and not any(isinstance(x, Each) for x in it):
             return list(it)
+        if isinstance(it, str) and len(it) <= 400:
+            return list(it)          # a string iterates over its characters
         if isinstance(it, PyTuple):
             return list(it.items)
         if isinstance(it, (set, frozenset)):
